@@ -6,6 +6,8 @@ use std::convert::TryInto;
 use std::io::{self, Read, Seek, SeekFrom, Write};
 
 pub fn tier_thorough() -> bool { std::env::var("VERIF_TIER").map(|t| t == "thorough").unwrap_or(false) }
+/// built with the dev profile (debug assertions / overflow checks on): tests reduce their volume
+pub fn profile_dev() -> bool { std::env::var("VERIF_PROFILE").map(|t| t == "dev").unwrap_or(false) }
 pub fn seed() -> u64 { std::env::var("VERIF_SEED").ok().and_then(|s| s.parse().ok()).unwrap_or(0) }
 
 pub struct Rng(pub u64);
